@@ -8,6 +8,7 @@ LEVEL = 'other'
 CONTRACTS = ['contracts.storage', 'contracts.tree']
 CLOSURE = [
     {'fn': 'TreeStorage.__len__'},
+    {'fn': 'TreeStorage.update'},
     {'fn': 'TreeStorage._update_data_reservoirs'},
     {'fn': 'TreeStorage._delete_outdated_reservoirs'},
     {'fn': 'TreeStorage.__call__'},
@@ -19,6 +20,9 @@ CLOSURE = [
 EXPLANATION = ("Under ASSUMED contracts of river's Hoeffding trees and of the two path functions of tree_storage.py (outside the engine's "
                "subset: recursive generator / recursion over river node objects): get_path_through_tree(root, x) is the id of a leaf of the "
                "current tree and occurs in get_all_tree_paths(root). Proved on the ixai side: __len__ = number of updates; "
+               "TreeStorage.update (loop over the features of x, invariant over the features done): one more update counted, and for every "
+               "stored feature of x the complete observation is in the reservoir of the leaf it is routed to in that feature's tree as it "
+               "is after learn_one (later iterations touch neither other features' trees nor their reservoirs), x unchanged; "
                "_update_data_reservoirs inserts the COMPLETE observation x into the reservoir keyed by the routed leaf id, a new reservoir is "
                "GeometricReservoirStorage(size = leaf_reservoir_length, p = 1.0) (so by C07 it never exceeds its size and holds only observed "
                "points, by C09's p = 1 clause it contains the newest one); after _delete_outdated_reservoirs the keys are a subset of the "
@@ -122,9 +126,14 @@ def BOUNDED(tier, seed):
                 seen_inputs = []
                 imp.model_function = lambda z, _s=seen_inputs: (_s.append(dict(z)), model(z))[1]
                 ns = 3
-                out = imp.impute(sub, x_i, n_samples=ns)
                 evals += 1
                 distinct.add((max_depth, use_storage, tuple(sub)))
+                try:
+                    out = imp.impute(sub, x_i, n_samples=ns)
+                except Exception as ex:   # noqa  (valid input: the statement says n_samples predictions are returned)
+                    fails.append({'key': 'tree_imputer', 'summary': f'TreeImputer(use_storage={use_storage}) subset {sub}: impute raised {ex!r}',
+                                  'observed': repr(ex)})
+                    continue
                 err = None
                 if x_i != xb or sub != subb or len(out) != ns or len(seen_inputs) != ns:
                     err = f'instance/subset modified or {len(out)} predictions for n_samples={ns}'
@@ -138,7 +147,7 @@ def BOUNDED(tier, seed):
                                 root = st._storage_x[k]._root
                                 leaf = st.get_path_through_tree(root, {a: b for a, b in x_i.items()})
                                 res = st.data_reservoirs[k].get(leaf)
-                                if res is not None and not any(p[k] == z[k] for p in res.get_data()[0]):
+                                if res is not None and not any(k in p and p[k] == z[k] for p in res.get_data()[0]):
                                     err = f'imputed {k}={z[k]!r} is not the value of {k} in any point of the routed leaf reservoir'
                                     break
                             if k == 'b' and z[k] not in (1.0, 2.0, 3.0):
